@@ -30,6 +30,52 @@ var otherLangTags = []string{"und", "fr", "de", "de-CH", "zh", "zh-Hant-TW", "zh
 // regionalTags are variants of English and Japanese: exercised, not judged.
 var regionalTags = []string{"en-US", "en-GB", "en-AU", "en-Latn", "en-Latn-US", "ja-JP", "ja-Jpan", "ja-Latn", "ja-US", "en-JP", "en-001", "en-u-ca-gregory", "ja-u-ca-japanese"}
 
+// prefixLangTags lists every language whose ISO 639 code merely starts with the letters of "ja" or "en"
+// (jam, jax, enm, enq, ...; computed with language.Parse, keeping those whose base language is neither ja
+// nor en), bare and with a region, a script, both, and an extension.
+func prefixLangTags() []string {
+	var out []string
+	for _, p := range []string{"ja", "en"} {
+		for c := 'a'; c <= 'z'; c++ {
+			code := p + string(c)
+			t, err := language.Parse(code)
+			if err != nil {
+				continue
+			}
+			if b, _ := t.Base(); b.String() == "ja" || b.String() == "en" || b.String() == "und" {
+				continue
+			}
+			out = append(out, code)
+			for _, suf := range []string{"-JM", "-JP", "-US", "-Latn", "-Jpan", "-Latn-JM", "-u-nu-latn", "-x-ja"} {
+				if _, err := language.Parse(code + suf); err == nil {
+					out = append(out, code+suf)
+				}
+			}
+		}
+	}
+	return out
+}
+
+func init() {
+	pl := prefixLangTags()
+	otherLangTags = append(otherLangTags, pl...)
+	for i, t := range pl { // a sample for the report monitors
+		if i%7 == 0 {
+			reportLangs = append(reportLangs, t)
+		}
+	}
+}
+
+// otherLanguage reports whether the named tag's language is neither English nor Japanese (so that English
+// text is expected).
+func otherLanguage(name string) bool {
+	if name == "zero" {
+		return true
+	}
+	b, _ := tagOf(name).Base()
+	return b.String() != "en" && b.String() != "ja"
+}
+
 func tagOf(s string) language.Tag {
 	if s == "zero" {
 		return language.Tag{}
